@@ -47,7 +47,8 @@ REQ_KINDS = ["doc-small", "doc-large", "menu", "menu", "menu-root", "menu-root",
              "maildir-message-2", "zip-html-a", "zip-html-b", "stale-links", "menu-via-symlink", "menu-via-symlink",
              "zip-web-listing", "zip2-listing", "hidden-twice", "html-alpha", "html-beta"]
 # groups of requests that touch the same underlying object / mechanism (a burst is often drawn from one group)
-GROUPS = [["menu", "menu-root", "menu-via-symlink"], ["menu", "menu-via-symlink"], ["mbox-folder", "mbox-message", "mbox-message-1"],
+GROUPS = [["doc-small", "doc-large", "doc-large", "zip-member", "html"], ["doc-large", "doc-small"],
+          ["menu", "menu-root", "menu-via-symlink"], ["menu", "menu-via-symlink"], ["mbox-folder", "mbox-message", "mbox-message-1"],
           ["maildir-folder", "maildir-message", "maildir-message-2"],
           ["zip-listing", "zip-member", "zip-html-a", "zip-html-b", "zip2-member", "zip-web-listing", "zip2-listing"],
           ["script", "script-big", "gz", "gz-big"], ["script", "script", "script-big"], ["html", "tal", "pyg"], ["html-alpha", "html-beta", "html"], ["html-alpha", "html-beta", "zip-html-a", "zip-html-b"]]
@@ -136,6 +137,9 @@ def gen(seed, index, tier):
     }
     if rng.random() < 0.5:
         sc["bursts"].append(_burst(rng, rng.choice([2, 3, 4])))
+    if st == "ForkingTCPServer" and rng.random() < 0.15:
+        # one fork() fails (EAGAIN) while other clients, possibly a stalled one, are being served
+        sc["forkfail"] = rng.randrange(1, max(2, len(sc["bursts"][0])) + 1)
     if rng.random() < 0.15:
         # one worker runs into a transient failure (descriptor table full, I/O error) while it builds the menu
         # of /docs; whatever it answers to its own client, nobody else may be served a degraded menu
@@ -267,6 +271,8 @@ def execute(sc, tape=None):
                 pass
 
             trans = None
+            if sc.get("forkfail") and run.forksim is not None:
+                run.forksim.fail_forks = {sc["forkfail"]}
             for bi, burst in enumerate(sc["bursts"]):
                 t0 = 0.0
                 if bi == 0 and sc.get("transient"):
@@ -306,6 +312,12 @@ def execute(sc, tape=None):
                                             sc["transient"]["kind"], sc["transient"]["rel"], common.short(got_, 200),
                                             common.short(refs[key_], 200))}
                 for c, cl in conns:
+                    if run.forksim is not None and tuple(c.client_addr) in run.forksim.failed_clients:
+                        # no worker could be created for this one connection: it is closed unanswered; that
+                        # must not cost anybody else anything
+                        counters["client_lost_to_failed_fork"] = 1
+                        resps.append(bytes(c.s2c))
+                        continue
                     if hit and cl["kind"] in ("menu", "menu-via-symlink", "menu-root", "gophermap"):
                         # (the gophermap links to /docs and the root menu lists it: both read docs/.abstract)
                         # one of these workers saw the failure: its own answer may lack the entry, and which
